@@ -6,6 +6,7 @@ import (
 	"fmt"
 	"math"
 	"reflect"
+	"strings"
 )
 
 var (
@@ -27,7 +28,26 @@ func valueFieldByName(v reflect.Value, fields []string) (out reflect.Value, ok b
 		v = v.Elem()
 	}
 
-	out = v.FieldByName(fields[0])
+	// only structures have fields, and only exported ones can be read
+	if v.Kind() != reflect.Struct {
+		return out, false
+	}
+	sf, found := v.Type().FieldByName(fields[0])
+	if !found || !sf.IsExported() {
+		return out, false
+	}
+
+	// a promoted field may sit behind embedded pointers which are nil
+	out = v
+	for _, i := range sf.Index {
+		if out.Kind() == reflect.Ptr {
+			if out.IsNil() {
+				out = reflect.New(out.Type().Elem())
+			}
+			out = out.Elem()
+		}
+		out = out.Field(i)
+	}
 
 	// if pointer we dereference
 	if out.Kind() == reflect.Ptr {
@@ -53,6 +73,40 @@ func valueFieldByName(v reflect.Value, fields []string) (out reflect.Value, ok b
 	}
 
 	return out, out.IsValid()
+}
+
+// declaredPath rewrites a field path so that fields promoted from embedded
+// structures are named through them ("Aa" becomes "A.Aa"), the way field
+// descriptors and indexes name them. A path it cannot follow is left as it is.
+func declaredPath(o Object, field string) string {
+	var out []string
+
+	t := reflect.TypeOf(o)
+	for _, name := range fieldPath(field) {
+		for t.Kind() == reflect.Ptr {
+			t = t.Elem()
+		}
+		if t.Kind() != reflect.Struct {
+			return field
+		}
+		sf, ok := t.FieldByName(name)
+		if !ok {
+			return field
+		}
+		// embedded structures on the way to a promoted field
+		cur := t
+		for _, i := range sf.Index[:len(sf.Index)-1] {
+			for cur.Kind() == reflect.Ptr {
+				cur = cur.Elem()
+			}
+			f := cur.Field(i)
+			out = append(out, f.Name)
+			cur = f.Type
+		}
+		out = append(out, name)
+		t = sf.Type
+	}
+	return strings.Join(out, ".")
 }
 
 func fieldByName(o Object, fpath []string) (i interface{}, ok bool) {
